@@ -40,6 +40,9 @@ class C16(Prop):
         L.append(("sum is the fold of +", lambda xs: S(el.vy_sum(xs, ctx)) == sum(xs)))
         L.append(("product is the fold of *", lambda xs: not xs or S(el.product(xs, ctx)) == __import__("math").prod(xs)))
         L.append(("max / min", lambda xs: not xs or (S(el.monadic_maximum(xs, ctx)) == max(xs) and S(el.monadic_minimum(xs, ctx)) == min(xs))))
+        # among items that tie under the key, the first one is the maximum / minimum (Python's max / min with a key, which the
+        # element documentation names as the definition): the items are made distinguishable by pairing them with their position
+        L.append(("maximum / minimum by last item take the first among ties", lambda xs: not xs or (S(el.max_by_tail([[i, x] for i, x in enumerate(xs)], ctx)) == list(max(enumerate(xs), key=lambda p: p[1])) and S(el.min_by_tail([[i, x] for i, x in enumerate(xs)], ctx)) == list(min(enumerate(xs), key=lambda p: p[1])))))
         L.append(("cumulative sums == accumulate", lambda xs: not xs or S(el.cumulative_sum(xs, ctx)) == list(itertools.accumulate(xs))))
         L.append(("deltas", lambda xs: S(el.deltas(xs, ctx)) == [b - a for a, b in zip(xs, xs[1:])]))
         L.append(("zip pairs positions with zero fill", lambda xs: S(el.vy_zip(xs, xs[:1], ctx)) == [[a, b] for a, b in itertools.zip_longest(xs, xs[:1], fillvalue=0)]))
@@ -83,7 +86,7 @@ class C16(Prop):
 
     def bounded(self, W, tier, seed):
         fails, n = self.law_search(tier, seed)
-        return [dict(name="C16/bounded-laws", what="24 executable laws (itertools / builtins as reference) on the real elements", bound="all integer lists of length <= 4 over {-1,0,1,2} (quick) / <= 5 over -2..3 (thorough) plus 40 random longer lists", evaluations=n, label="bounded", failures=fails)]
+        return [dict(name="C16/bounded-laws", what=f"{len(self.laws())} executable laws (itertools / builtins as reference) on the real elements", bound="all integer lists of length <= 4 over {-1,0,1,2} (quick) / <= 5 over -2..3 (thorough) plus 40 random longer lists", evaluations=n, label="bounded", failures=fails)]
 
     def replay(self, W, report, ob):
         f = [x for x in self.law_search("quick", 0)[0] if not (x["law"] == "permutations" and x["list"] == [])]
